@@ -439,6 +439,7 @@ func runC13(c *Ctx) {
 	ruleDeadlineDisarmed(c, p, "C13.disarm")
 	ruleVarintFastPath(c, p, "C13.varint")
 	ruleSettingsEnd(c, p, "C13.settings-end")
+	ruleReadFull(c, p, "C13.readfull")
 	hs := p.Method(core.PkgCh, "Client", "handshake")
 	if !c.must(p, "(*ch.Client).handshake", hs != nil) {
 		return
